@@ -2,8 +2,18 @@
 #define PROP(c, msg) __CPROVER_assert((c), msg)
 /* reachability witness: an assertion that must FAIL (the runner counts it as a satisfied cover) */
 #define COVER(c, msg) __CPROVER_assert(!(c), "WITNESS " msg)
+double nondet_double(void); int nondet_int(void); _Bool nondet_bool(void); unsigned char nondet_uchar(void);
+#define IN_DOUBLE(n) nondet_double()
+#define IN_INT(n) nondet_int()
+#define IN_BOOL(n) nondet_bool()
 #else
+/* native build (translator validation / C-level replay): inputs come from the command line as name=hexbits */
 extern int prop_failed; extern const char *prop_msg;
 #define PROP(c, msg) do { if (!(c)) { prop_failed = 1; prop_msg = msg; } } while (0)
 #define COVER(c, msg) do { } while (0)
+unsigned long long rs_input(const char *name);
+static inline double rs_in_double(const char *n) { unsigned long long u = rs_input(n); double d; __builtin_memcpy(&d, &u, 8); return d; }
+#define IN_DOUBLE(n) rs_in_double(#n)
+#define IN_INT(n) ((int)rs_input(#n))
+#define IN_BOOL(n) ((_Bool)(rs_input(#n) & 1))
 #endif
